@@ -136,7 +136,8 @@ def main():
         except AssertionError as e:
             print(f"real call {c['qual']} raised AssertionError: {e}")
             res = ("__raised__", "AssertionError", str(e))
-            if c.get("expected_raise"):
+            if c.get("expected_raise") or rp.get("kind") == "assert":
+                # the refuted obligation IS an assert of the real function: raising on this input confirms it
                 continue
             allok = False
             continue
